@@ -1,6 +1,6 @@
 (* Step-level characterisations used by C02, C03, C05, C07, C09: what a successful (or refused)
    operation implies about its inputs and what it leaves in the store. *)
-From FositeModel Require Import Base.Str Model.Scope Model.Core Model.Flows Proofs.CoreInv Proofs.StepInv Proofs.Family Proofs.Decay.
+From FositeModel Require Import Base.Str Model.Scope Model.Core Model.Flows Proofs.CoreInv Proofs.StepInv Proofs.Family Proofs.Implicit Proofs.Decay.
 
 Arguments upd : simpl never.
 
@@ -465,6 +465,29 @@ Proof.
   { destruct (implicit (st (run cfg s h)) (i_key e)) as [ri|] eqn:Ei; [|reflexivity]. exfalso.
     pose proof (Inv_run cfg h s I) as I2. pose proof (inv_owner_implicit _ I2 _ _ Ei) as Ho1.
     pose proof (inv_log_owner _ I2 e (nth_error_In _ _ (log_run_nth cfg h s i e Hn))) as Ho2. rewrite Ho1 in Ho2. congruence. }
+  unfold introspect_access, introspect_refresh, lookup_access. cbn [find]. rewrite Ha', Hi'.
+  destruct Hr' as [->|[r ->]]; auto.
+Qed.
+
+(* the same for every kind of credential, the authorization endpoint's access tokens included *)
+Theorem inactive_forever_any cfg s h i e tampered scopes :
+  Inv s -> nth_error (log s) i = Some e ->
+  access (st s) (i_key e) = None -> implicit (st s) (i_key e) = None -> rt_dead (st s) (i_key e) ->
+  introspect_access cfg (run cfg s h) (Some (i_key e)) tampered scopes = None /\
+  introspect_refresh cfg (run cfg s h) (Some (i_key e)) tampered scopes = None.
+Proof.
+  intros I Hn Ha Hi Hr.
+  pose proof (inv_log_owner s I e (nth_error_In _ _ Hn)) as Ho.
+  destruct (inv_owner_fresh s I _ _ _ Ho) as [Hlt Hrid].
+  pose proof (decay_run cfg h s) as D.
+  pose proof (decay_access_gone _ _ _ _ D Hlt Ha) as Ha'.
+  pose proof (decay_rt_dead _ _ _ _ D Hlt Hr) as Hr'.
+  assert (Hi' : implicit (st (run cfg s h)) (i_key e) = None).
+  { destruct (implicit (st (run cfg s h)) (i_key e)) as [ri|] eqn:Ei; [|reflexivity]. exfalso.
+    destruct (imp_keeps_run cfg h s _ _ Ei) as [H0|H0]; [congruence|].
+    pose proof (Inv_run cfg h s I) as I2. pose proof (inv_owner_implicit _ I2 _ _ Ei) as Ho1.
+    pose proof (inv_log_owner _ I2 e (nth_error_In _ _ (log_run_nth cfg h s i e Hn))) as Ho2. rewrite Ho1 in Ho2.
+    injection Ho2 as _ Hx. lia. }
   unfold introspect_access, introspect_refresh, lookup_access. cbn [find]. rewrite Ha', Hi'.
   destruct Hr' as [->|[r ->]]; auto.
 Qed.
